@@ -35,7 +35,7 @@ fn parse_ids(ans: &str) -> Option<Vec<usize>> {
 
 fn start_cmd(rng: &mut Rng, r: &Rose) -> String {
     let seed = rng.next() % 100_000;
-    let how = *rng.pick(&["api", "bfs", "tomb", "parse", "grown", "grown", "bottomup", "bottomup"]);
+    let how = *rng.pick(&["api", "bfs", "tomb", "tomb2", "parse", "grown", "grown", "bottomup", "bottomup"]);
     format!("real.build\t{how}\t{}\t{seed}", r.canon())
 }
 
@@ -429,8 +429,8 @@ fn c09_nonfinite(rng: &mut Rng, rep: &mut Report) {
         }
     }, true, 0);
     let seed = rng.next() % 100_000;
-    let how = *rng.pick(&["api", "bfs", "tomb", "bottomup"]);
-    let tree = match how { "api" => build_api(&t), "bfs" => build_api_bfs(&t), "tomb" => build_with_tombstones(&t, &mut Rng::new(seed)), _ => build_bottom_up(&t, &mut Rng::new(seed)) };
+    let how = *rng.pick(&["api", "bfs", "tomb", "tomb2", "bottomup"]);
+    let tree = match how { "api" => build_api(&t), "bfs" => build_api_bfs(&t), "tomb" => build_with_tombstones(&t, &mut Rng::new(seed)), "tomb2" => build_with_tombstones2(&t, &mut Rng::new(seed)), _ => build_bottom_up(&t, &mut Rng::new(seed)) };
     let slots = slots_of(&tree);
     let n = slots.len();
     let case = format!("real.build\t{how}\t{}\t{seed}", t.canon());
